@@ -1354,17 +1354,23 @@ pub fn replay(ctx: &Ctx, prop: &str, path: &str) -> bool {
                 let v: Vec<u32> = toks[..toks.len() - 1].iter().map(|x| x.parse().unwrap()).collect();
                 let d = unhex(toks[toks.len() - 1]);
                 let mut c = CaseOut::default();
-                match guarded(|| vh::roundtrip_with_params(&d, &v)) {
+                match guarded(|| vh::analyze_with_params(&d, &v)) {
                     Run::Panic(p) => c.failures.push(Failure { kind: "oracle".into(), signature: format!("panic {}", panic_signature(&p)), detail: p, replay: String::new() }),
-                    Run::Done(Ok(rt)) => {
-                        if rt.reconstructed[..] != d[..rt.consumed.min(d.len())] {
-                            c.failures.push(Failure { kind: "oracle".into(), signature: "reconstruction-differs".into(), detail: format!("{v:?}"), replay: String::new() });
+                    Run::Done(Ok(a)) => match guarded(|| preflate_rs::recompress_deflate_stream(&a.plain_text, &a.corrections)) {
+                        Run::Done(Ok(y)) => {
+                            if y[..] != d[..a.compressed_size.min(d.len())] {
+                                c.failures.push(Failure { kind: "oracle".into(), signature: "reconstruction-differs".into(), detail: format!("{v:?}"), replay: String::new() });
+                            }
                         }
-                        if rt.reread != v {
-                            c.failures.push(Failure { kind: "oracle".into(), signature: "params-reread-differ".into(), detail: format!("{v:?} vs {:?}", rt.reread), replay: String::new() });
-                        }
-                    }
+                        Run::Done(Err(e)) => c.failures.push(Failure { kind: "oracle".into(), signature: "reconstruction-err".into(), detail: format!("{:?} {v:?}", e.exit_code()), replay: String::new() }),
+                        Run::Panic(p) => c.failures.push(Failure { kind: "oracle".into(), signature: format!("reconstruction-panic {}", panic_signature(&p)), detail: p, replay: String::new() }),
+                    },
                     Run::Done(Err(_)) => {}
+                }
+                if let Run::Done(Ok((_, reread))) = guarded(|| vh::params_roundtrip(&v)) {
+                    if reread != v {
+                        c.failures.push(Failure { kind: "oracle".into(), signature: "params-reread-differ".into(), detail: format!("{v:?} vs {reread:?}"), replay: String::new() });
+                    }
                 }
                 report(c);
             }
